@@ -87,6 +87,23 @@ def main():
             vlib.tlc_expect_ok(r3, "MC_Lease3")
             rep.add_tlc("MC_Lease3", r3, "Clients=3 TTL=2 MaxNow=4 MaxOps=2 MaxTag=6")
             model_violations += r3.violated
+        if tier == "thorough" and not replay_path:
+            # behaviours of ANY length (3 clients, clock and ETags to 12): inductive invariant discharged by Apalache (LeaseInd.tla)
+            obligations = [("Init => IndInv", "CInit", "Init", "IndInv", 0, "NoError"),
+                           ("IndInv /\\ Next => IndInv'", "CInit", "IndInit", "IndInv", 1, "NoError"),
+                           ("IndInv => Mutex /\\ StaleCannot", "CInit", "IndInit", "Safety", 0, "NoError"),
+                           ("NEGATIVE CONTROL: takeover without the expiry test - the induction must fail", "CInitBad", "IndInit", "IndInv", 1, "Error")]
+            from concurrent.futures import ThreadPoolExecutor
+            with ThreadPoolExecutor(4) as ex:
+                res = list(ex.map(lambda o: vlib.apalache_check(wd, "LeaseInd", o[1], o[2], o[3], o[4]), obligations))
+            rep.cov["apalache_inductive"] = [{"obligation": o[0], "outcome": r[0], "expected": o[5], "wall_s": r[1]} for o, r in zip(obligations, res)]
+            for o, r in zip(obligations, res):
+                if r[0].startswith("failed"):
+                    raise vlib.MachineryError("apalache did not complete (%s): %s" % (o[0], r[0]))
+                if r[0] != o[5] and o[5] == "Error":
+                    raise vlib.MachineryError("negative control of the inductive argument found no counterexample")
+                if r[0] != o[5]:
+                    rep.notes.append("design-level: inductive obligation not discharged (%s): %s" % (o[0], r[0]))
         rep.cov["exhaustive"] = True
         if model_violations:
             rep.notes.append("design-level counterexample in Lease.tla: %s (reported only if reproduced on the real code)" % model_violations)
